@@ -129,6 +129,26 @@ impl Prop for C01 {
             let second = if rng.chance(1, 2) { (Term::Var(1), p1, Term::Var(2)) } else { (Term::Var(0), p1, Term::Var(2)) };
             pat = Pat::Group(vec![Pat::Bgp(vec![(Term::Var(0), p0, Term::Var(1)), second])]);
         }
+        let prebound = !big && rng.chance(1, 12);
+        if prebound {
+            // GRAPH ?g whose variable is already bound (by VALUES or by a triple pattern) when the GRAPH block is reached:
+            // graphs that are stored but hidden by the dataset clause, and names of graphs that do not exist, must not match
+            stats.hit("graph_var_prebound");
+            let gv = 0u32;
+            let mut names: Vec<Option<String>> = u.graphs.iter().map(|g| Some(g.clone())).collect();
+            names.push(Some("urn:gmissing".into()));
+            if rng.chance(1, 3) {
+                names.push(None);
+            }
+            rng.shuffle(&mut names);
+            let binder = if rng.chance(2, 3) || u.seeds.is_empty() {
+                Pat::Values(vec![gv], names.into_iter().map(|n| vec![n]).collect())
+            } else {
+                Pat::Bgp(vec![(Term::Var(gv), Term::Var(4), Term::Var(5))])
+            };
+            let inner = gen_group(rng, &u, nvars, 1, true, &mut fresh);
+            pat = Pat::Group(vec![binder, Pat::Graph(GTerm::Var(gv), Box::new(inner))]);
+        }
         let mut vars = Vec::new();
         pat_vars(&pat, &mut vars);
         fresh += 1;
@@ -140,7 +160,7 @@ impl Prop for C01 {
             spec.order.retain(|(v, _)| outs.contains(v));
         }
         let (mut from, mut from_named) = (vec![], vec![]);
-        if rng.chance(1, 4) {
+        if rng.chance(1, 4) || (prebound && rng.chance(3, 4)) {
             for g in &u.graphs {
                 if rng.chance(1, 2) {
                     from.push(g.clone());
